@@ -23,8 +23,10 @@ def handle (l : Line) : Verdict :=
     match (l.kv.get "c").toNat?, (l.kv.get "m").toNat? with
     | some c, some m =>
       let w := hex4 (Spec.interleave c m)
+      let hc := String.ofList ((List.range 4).map fun k => if k = c then '1' else '0')
+      let hm := String.ofList ([m, m ^^^ 1, m ^^^ 0x800, 0, 0xfff].map fun k => if k = m then '1' else '0')
       exact "mtype fcm" l.obs
-        s!"wire={w} wire2={w} cls={c} meth={m} hc=1 hm=1 resp={if c ≥ 2 then 1 else 0}"
+        s!"wire={w} wire2={w} cls={c} meth={m} hc={hc} hm={hm} resp={if c ≥ 2 then 1 else 0}"
     | _, _ => .bad "mtype fcm args" ""
   | "tid" =>
     match ofHex (l.kv.get "x") with
